@@ -144,7 +144,9 @@ func genCrypto(h *harness, rng *vlib.Rand, n int) {
 			case 6:
 				ct, gen, pristine = append(ct, randBytes(rng, 1+rng.Intn(8))...), "extended", false
 			case 7:
-				ct, gen, pristine = ct[:32+rng.Intn(17)], "header-only", false
+				// (an empty plaintext seals to exactly 48 bytes: cutting at 48 then leaves the box untouched)
+				cut := 32 + rng.Intn(17)
+				ct, gen, pristine = ct[:cut], "header-only", cut == len(ct)
 			}
 			h.emit(&Req{Kind: kind, Gen: gen, B: [][]byte{ct}, F: []bool{pristine}})
 		case 2: // AES
